@@ -110,6 +110,38 @@ def check_par(tier, pid, chk=None):
         else:   # larger searches: several sub-problems open at the same time (needed for two workers to hold nodes simultaneously)
             I = gen_layered(r, nvars=r.range(5, 7), per_layer=r.range(3, 5), dom_max=r.range(2, 3), dominance=0, rub=r.choice([0, 0, 3]), dead=False)
         insts.append(I)
+    # corpus first: minimised witnesses (instance + scheduled runs) of the defects found earlier
+    import glob
+    ncorpus = 0
+    if pid in ("C04", "C05"):
+        for fpath in sorted(glob.glob(os.path.join(VERIF, "corpus", "C0[45]", "*.txt"))):
+            ls = [l for l in open(fpath).read().split("\n") if l.strip()]
+            if not ls or not ls[0].startswith("I "): continue
+            pss = [l for l in ls[1:] if l.startswith("PS ")]
+            if not pss: continue
+            insts.append(Inst.parse(ls[0]))
+            for l in pss:
+                cases.append((len(insts) - 1, l, "corpus", None)); ncorpus += 1
+    stats["corpus_runs"] = ncorpus
+    # instances whose relaxed costs SATURATE (slack = isize::MAX) while a rough-bound table keeps some bounds finite: cut-set nodes whose
+    # upper bound is exactly isize::MAX sit next to nodes with small bounds (the sentinel values of abort_search)
+    nsat = 0
+    if pid in ("C04", "C05"):
+        for j in range(10 if tier == "quick" else 60):
+            r = rng.fork()
+            I = gen_layered(r, nvars=r.range(3, 5), per_layer=r.range(2, 3), dom_max=2, dominance=0, rub=1, dead=False)
+            I.slack = (1 << 63) - 1
+            hb = I.hbase()
+            # keep the table admissible, but make it loose (isize::MAX) on about half of the base states
+            I.rubkind = 1
+            I.rub = [((1 << 63) - 1) if (r.chance(1, 2) or I.rub[b] is None) else I.rub[b] for b in range(I.nbase)] if I.rub else [(1 << 63) - 1] * I.nbase
+            insts.append(I); nsat += 1
+            for T in (2, 3):
+                for d in (0, 1, 2, 3, 4, 6):
+                    for tail in ([x for _ in range(20) for x in range(T - 1, -1, -1)], [x for _ in range(20) for x in range(T)]):
+                        cases.append((len(insts) - 1, ps_line(T, T, r.choice([0, 1]), 0, 0, 1, 2 * I.nvars + d, 0, [0] * 7 + tail), "saturating", None))
+                        stats["random_schedules"] += 1
+    stats["saturating_relaxation_instances"] = nsat
     opts = oracle_batch([(I.line(), ["O opt"]) for I in insts])
     cfgs = [(0, 0, 0, 1), (1, 0, 1, 1), (0, 1, 0, 1), (2, 0, 0, 1), (1, 1, 1, 2)]
     # ---- systematic part: all schedules with <= k pre-emptions
